@@ -188,7 +188,8 @@ def new_exact(rng):
     return P
 
 
-GRIDS = [(0.0, 8.0, 17), (0.0, 8.0, 9), (-1.0, 9.0, 21), (0.0, 8.0, 17), (2.0, 6.0, 5), (0.0, 10.0, 11)]
+GRIDS = [(0.0, 8.0, 17), (0.0, 8.0, 9), (-1.0, 9.0, 21), (0.0, 8.0, 17), (2.0, 6.0, 5), (0.0, 10.0, 11), (0.0, 8.0, 16), (0.0, 8.0, 20),
+         (0.0, 8.0, 24)]
 
 
 def new_grid(rng):
@@ -364,8 +365,14 @@ def run_case(ctx, k, rng):
                     continue
                 idx = [t for t in idx if snaps[t]["hom"] == hom0]
                 members = [pool[t] for t in idx]; ms = [snaps[t] for t in idx]
-                mode = int(rng.integers(0, 3))
+                mode = int(rng.integers(0, 4))
                 kw = {}
+                if mode == 3:
+                    # the members' own ends, fewer nodes: a count that divides the source's node count (24 -> 12, 8, 6, 4 ...), or one
+                    # that divides its interval count (17 -> 9, 5), or neither
+                    n0 = ms[0]["num"]
+                    cands = [d for d in range(2, n0) if n0 % d == 0] + [d + 1 for d in range(1, n0 - 1) if (n0 - 1) % d == 0] + [max(2, n0 // 2 + 1)]
+                    kw = {"start": min(s["start"] for s in ms), "stop": max(s["stop"] for s in ms), "num_steps": int(rng.choice(cands))}
                 if mode == 1:
                     kw = {"start": min(s["start"] for s in ms) - 1.0, "stop": max(s["stop"] for s in ms) + 0.5, "num_steps": int(rng.integers(5, 40))}
                 elif mode == 2:   # a grid inside every source grid
